@@ -1228,6 +1228,13 @@ def routeStep {ι : Type} (grammar : ι → Option Command) (input : ι) (s : Ro
   | .failed e => .failed e
   | .returned c => .returned c
 
+def runRouteFrom {ι : Type} (s0 : RouteState) (order : List String) (grammar : ι → Option Command) (input : ι) :
+    Except ParseErr Command :=
+  match order.foldl (routeStep grammar input) s0 with
+  | .returned c => .ok c
+  | .failed e => .error e
+  | _ => .error .grammar
+
 def runRoute {ι : Type} (order : List String) (grammar : ι → Option Command) (input : ι) : Except ParseErr Command :=
   match order.foldl (routeStep grammar input) .start with
   | .returned c => .ok c
@@ -1241,5 +1248,16 @@ def parseKip {ι : Type} (grammar : ι → Option Command) (input : ι) : Except
 /-- `parse_kml` (its grammar yields a KML statement) -/
 def parseKml {ι : Type} (grammar : ι → Option Plan) (input : ι) : Except ParseErr Command :=
   runRoute KipGuardTables.parseKmlOrder (fun i => (grammar i).map Command.kml) input
+
+/-- what an `Operation` of a request carries -/
+inductive OperationSrc (ι : Type) where
+  | command (text : ι)
+  | ast (cmd : Command)
+
+/-- `Operation::parse` (request.rs): text goes through `parse_kip`; a pre-parsed `ast` skipped the
+parser, so it goes through `validate_command` before it is cloned out (step order generated). -/
+def operationParse {ι : Type} (grammar : ι → Option Command) : OperationSrc ι → Except ParseErr Command
+  | .command text => parseKip grammar text
+  | .ast cmd => runRouteFrom (.parsed cmd) KipGuardTables.operationAstOrder (fun (_ : Unit) => none) ()
 
 end AndaVerif.KmlGuard
